@@ -92,7 +92,11 @@ def main():
             shutil.rmtree(wt, ignore_errors=True)
             # scratch cfg dir of this run
             import hashlib
-            shutil.rmtree(os.path.join(VERIF, '_work', 'cfg_' + hashlib.sha1(wt.encode()).hexdigest()[:10]), ignore_errors=True)
+            h10 = hashlib.sha1(wt.encode()).hexdigest()[:10]
+            shutil.rmtree(os.path.join(VERIF, '_work', 'cfg_' + h10), ignore_errors=True)
+            import glob
+            for rd in glob.glob(os.path.join(VERIF, '_work', 'run', '*_' + h10)):
+                shutil.rmtree(rd, ignore_errors=True)
     meta['evaluation'] = res
     json.dump(meta, open(os.path.join(d, 'meta.json'), 'w'), indent=1)
     print(name, pid, 'tests_pass=%s demo pristine rc=%s patched rc=%s caught_by=%s' %
